@@ -35,7 +35,11 @@ def _build_target_for_groupby(np_type, operation: str, shape):
     dtype = np_type
     if "sum" in operation:
         if np_type.kind in "iub":
-            dtype = "uint64" if np_type.kind == "u" else "int64"
+            if "squares" in operation:
+                # squares of 64-bit integers do not fit into 64 bits: the sum of squares is a float quantity
+                dtype = "float64"
+            else:
+                dtype = "uint64" if np_type.kind == "u" else "int64"
         initial_value = 0
     else:
         initial_value = _null_value_for_numpy_type(np.dtype(dtype))
@@ -311,10 +315,13 @@ class ScalarFuncs:
     def nansum_squares(cur_sum, next_val, count):
         if is_null(next_val):
             return cur_sum, count
-        elif count:
-            return cur_sum + next_val**2, count + 1
+        # square in floating point: an int64 square overflows from about 3.04e9 on
+        next_float = next_val * 1.0
+        next_sq = next_float * next_float
+        if count:
+            return cur_sum + next_sq, count + 1
         else:
-            return next_val**2, count + 1
+            return next_sq, count + 1
 
     @_scalar_func_decorator
     def max(cur_max, next_val, count):
